@@ -40,6 +40,10 @@ const SEP_STATS: &[&str] = &[
     "%lbl\n/*c*/ : x;", "%lbl /* a\nb */ /*c*/:", "%lbl\n\n  :", "%then", "%to 2", "%by 1",
     "%until(1)", "%while(1)", "%include f;", "%list;", "%run;", "%m", "%m(1)", "%eval(1)", "%do %while(1);", "%do i=1 %to 2;", "%LET a=1;",
     "%Lbl:", "%é:", "%let", "%if", "%do",
+    // almost-labels and labels behind awkward comments: a colon that is inside a comment, a string
+    // or parentheses does not make the name before it a label
+    "%m /*/: */ b;", "%m /*:*/ b;", "%m /*/ : */", "%m /* c */ /*/:*/ x", "%m ':' x;", "%m \":\" x;", "%m(a):", "%m (:) x;", "%m\n/*:*/\nb;", "%m /*/",
+    "%lbl /*/*/:", "%lbl /*/ x */:", "%lbl /*/ : */ :", "%lbl /*:*/ : x;", "%lbl /* c */ /* : */\n: y;", "%m /*/: */: z;", "%m %* :;", "%m * : ;",
 ];
 
 /// The k-th input of the differential sequence for `prop` (independent of lexer behaviour).
@@ -54,7 +58,7 @@ pub fn diff_input(prop: &str, seed: u64, k: usize, tier: Tier, corpus: &Corpus) 
                 let mut s = String::new();
                 for _ in 0..n {
                     s.push_str(r.pick(SEP_HEADS));
-                    s.push_str(r.pick(&["", "", " ", "\n", "/* c */", " /* c */ "]));
+                    s.push_str(r.pick(&["", "", " ", "\n", "/* c */", " /* c */ ", "/*/ c */", " /*/*/ ", "/*:*/", " /*/: */ "]));
                     s.push_str(r.pick(SEP_STATS));
                     s.push_str(r.pick(&["", " ", "\n"]));
                 }
